@@ -570,6 +570,8 @@ def reach_under(body, tb, env, start=0, stop_blocks=(), removed_edges=(), want_d
                     else:
                         env_b = env
                     v = eval_bool(dt, env_b)
+                    if v is None:
+                        v = _next_presence(body, tb, b, env_b)
                     sd = strip_sites(dt)
                     count = {}
                     for val, bb in t['targets']:
@@ -592,7 +594,7 @@ def reach_under(body, tb, env, start=0, stop_blocks=(), removed_edges=(), want_d
                     if (b, s2) in removed_edges:
                         continue
                     nf = dict(facts.get(b) or {})
-                    if s2 in edge_fact and not _has_phi(edge_fact[s2][0]):
+                    if s2 in edge_fact and not _has_phi(edge_fact[s2][0]) and not _stateful(edge_fact[s2][0]):
                         k_, v_ = edge_fact[s2]
                         nf[k_] = bool(v_) if (t.get('dty') == 'bool') else v_
                     if s2 in headers:
@@ -627,6 +629,8 @@ def reach_under(body, tb, env, start=0, stop_blocks=(), removed_edges=(), want_d
                         env_b = dict(fb)
                         env_b.update(env)
                     v = eval_bool(dt, env_b)
+                    if v is None:
+                        v = _next_presence(body, tb, b, env_b)
                     if v is not None:
                         iv = int(v) if isinstance(v, bool) else v
                         taken = None
@@ -642,6 +646,97 @@ def reach_under(body, tb, env, start=0, stop_blocks=(), removed_edges=(), want_d
     if want_dead:
         return seen, frozenset(dead)
     return seen
+
+
+def _stateful(t):
+    """the term reads an iterator's next(): two textually equal occurrences are different values, so an answer is not a path fact"""
+    return contains(t, lambda y: isinstance(y, tuple) and y and (y[0] == 'next' or (y[0] == 'call' and call_name(y) in ('next', 'next_back'))))
+
+
+def next_ordinal(body, tb, sb):
+    """The switch at sb tests whether the k-th `next()` (k = 0, 1, ..) on one iterator over a collection X produced an element - directly
+    (`match it.next()`, `let Some(a) = it.next() else ..`) or as a field of a tuple of such results (`match (it.next(), it.next())`).
+    Returns (X, k): the tested value is Some iff len(X) > k. None when the calls are not straight-line (inside a loop) or not recognised."""
+    t = body.term(sb)
+    if not t or t['k'] != 'switch' or t['discr']['k'] not in ('move', 'copy') or t['discr']['place']['p']:
+        return None
+    dl = t['discr']['place']['l']
+    pl = None
+    for st in reversed(body.blocks[sb]['stmts']):
+        if st['k'] == 'assign' and st['place']['l'] == dl and not st['place']['p'] and st['rv']['k'] == 'discr':
+            pl = st['rv']['place']
+            break
+    if pl is None:
+        return None
+    fields = [p for p in pl['p'] if isinstance(p, dict) and 'f' in p]
+    if [p for p in pl['p'] if not (isinstance(p, dict) and 'f' in p) and p != 'deref']:
+        return None
+    if not fields:
+        N = chase_local(body, tb, pl['l'])
+    elif len(fields) == 1:
+        ds = tb.defs(pl['l'])
+        if len(ds) != 1 or ds[0][2] != 'assign' or ds[0][3]['k'] != 'agg' or ds[0][3].get('ak') != 'tuple':
+            return None
+        fs = ds[0][3]['fields']
+        if fields[0]['f'] >= len(fs):
+            return None
+        op = fs[fields[0]['f']]
+        if op['k'] not in ('move', 'copy') or op['place']['p']:
+            return None
+        N = chase_local(body, tb, op['place']['l'])
+    else:
+        return None
+    nd = tb.defs(N)
+    if len(nd) != 1 or nd[0][2] != 'call':
+        return None
+    Bn = nd[0][0]
+    c = body.callee(Bn)
+    if c is None or c.name != 'next' or not nd[0][3]['args']:
+        return None
+    def root_of(call_term):
+        a0 = call_term['args'][0]
+        if a0['k'] not in ('move', 'copy'):
+            return None
+        return chase_local(body, tb, a0['place']['l'], through_calls=('by_ref',))
+    root = root_of(nd[0][3])
+    if root is None:
+        return None
+    sibs = []
+    for bi, c2, t2 in body.calls():
+        if c2 is not None and c2.name == 'next' and t2['args'] and root_of(t2) == root:
+            if any(bi in body.reachable(s_) for s_ in body.succ(bi)):
+                return None      # a next() of this iterator inside a loop: no fixed ordinal
+            sibs.append(bi)
+    k = sum(1 for bi in sibs if bi != Bn and body.dominates(bi, Bn))
+    if any(bi != Bn and not body.dominates(bi, Bn) and not body.dominates(Bn, bi) for bi in sibs):
+        return None
+    args = tb.call_args(Bn)
+    X = strip_sites(detry(elem_source(args[0])))
+    while X[0] == 'call' and call_name(X) in ('iter', 'into_iter', 'deref', 'as_slice', 'by_ref', 'iter_mut') and len(X[2]) == 1:
+        X = strip_sites(detry(X[2][0]))
+    return X, k
+
+
+def _next_presence(body, tb, sb, env):
+    """Discriminant (1 = Some, 0 = None) of the k-th next() tested at sb under a valuation of the collection's element count."""
+    if not any(isinstance(k, tuple) and k and k[0] == 'len' for k in env):
+        return None
+    try:
+        no = next_ordinal(body, tb, sb)
+    except Exception:
+        return None
+    if no is None:
+        return None
+    X, k = no
+    n = env.get(('len', X))
+    if n is None:
+        for key, val in env.items():
+            if isinstance(key, tuple) and key and key[0] == 'len' and strip_sites(detry(key[1])) == X:
+                n = val
+                break
+    if n is None:
+        return None
+    return 1 if n > k else 0
 
 
 def _back_edge_targets(body):
@@ -1321,7 +1416,11 @@ def pure_delegation(F, b):
     if k in _RET_CACHE:
         return _RET_CACHE[k]
     tb = TermBuilder(F, b)
-    rds = ret_defs(tb)
+    try:
+        rds = ret_defs(tb)
+    except Exception:
+        _RET_CACHE[k] = False       # too large to summarise: not treated as a pure delegation (never expanded)
+        return False
     succ = [t for bi, si, t in rds if not (t[0] == 'agg' and t[2] in ('Err', 'None')) and m_call(t, name='from_residual') is None]
     ok = len(succ) == 1
     if ok:
